@@ -575,7 +575,7 @@ impl SpannedExpr {
             },
             Expr::BitSelect { ref from, low, high } => {
                 let inner_value = from.evaluate(wires)?.bits;
-                let shifted = inner_value >> low;
+                let shifted = inner_value.checked_shr(low as u32).unwrap_or(0);
                 Ok(WireValue::new(shifted).as_width(WireWidth::Bits(high - low)))
             },
             Expr::Concat(ref left, ref right) => {
@@ -583,7 +583,7 @@ impl SpannedExpr {
                 let right_value = right.evaluate(wires)?;
                 if let WireWidth::Bits(right_bits) = right_value.width {
                     if let WireWidth::Bits(left_bits) = left_value.width {
-                        let shifted_left = left_value.bits << right_bits;
+                        let shifted_left = left_value.bits.checked_shl(right_bits as u32).unwrap_or(0);
                         Ok(WireValue::new(shifted_left | right_value.bits).as_width(
                             WireWidth::Bits(left_bits + right_bits)))
                     } else {
